@@ -114,7 +114,7 @@ void exec_op(World &W, const Json &op, int index);
 void world_begin(World &W, const Json &plan);
 void world_end(World &W);
 ref::InstView inst_view(World &W, const Slot &s);
-extern BFail g_bfail;
+extern thread_local BFail g_bfail;
 extern bool announce_ops;
 extern World *g_world;
 void set_env(World &W, bool set, const std::string &v);
